@@ -47,6 +47,30 @@ def child(job, wfd):
                 res["listing"][d] = None
         import pytask
         kw = {"ignore": job.get("ignore") or []}
+        if job.get("ptasks"):
+            # programmatic tasks: functions taken from module files the harness wrote (each file imported once, under a
+            # private name), optionally wrapped into TaskWithoutPath; the same object may be listed several times
+            import importlib.util
+            mods = {}
+            objs = []
+            for i, pt in enumerate(job["ptasks"]):
+                if pt["file"] not in mods:
+                    spec = importlib.util.spec_from_file_location(f"_c13prog_{len(mods)}", pt["file"])
+                    m = importlib.util.module_from_spec(spec)
+                    spec.loader.exec_module(m)
+                    mods[pt["file"]] = m
+                fn = getattr(mods[pt["file"]], pt["attr"])
+                if pt.get("kind") == "twp":
+                    key = (pt["file"], pt["attr"], pt["name"], pt.get("share"))
+                    if pt.get("share") is not None and key in mods:
+                        objs.append(mods[key])
+                    else:
+                        o = pytask.TaskWithoutPath(name=pt["name"], function=fn)
+                        mods[key] = o
+                        objs.append(o)
+                else:
+                    objs.append(fn)
+            kw["tasks"] = objs
         if job.get("task_files") is not None:
             kw["task_files"] = job["task_files"]
         try:
